@@ -114,11 +114,13 @@ func (c *conn) Transport(ctx context.Context, request []byte) (response []byte, 
 	if len(request) > maxBodyLength {
 		return nil, core.ErrRequestEntityTooLarge
 	}
+	verifYield("before-register")
 	resultChan := make(chan data, 1)
 	index, ok := c.register(resultChan)
 	if !ok {
 		return nil, errTooManyPendingCalls
 	}
+	verifYield("registered")
 	select {
 	case <-ctx.Done():
 		c.delete(index)
@@ -130,6 +132,7 @@ func (c *conn) Transport(ctx context.Context, request []byte) (response []byte, 
 	case res := <-resultChan:
 		return res.Body, res.Error
 	}
+	verifYield("enqueued")
 	select {
 	case <-ctx.Done():
 		c.delete(index)
@@ -236,12 +239,14 @@ func (c *conn) Close(err error) {
 		c.onClose(c.Conn)
 		_ = c.Conn.Close()
 	})
+	verifYield("before-clean")
 	c.rangeAndClean(func(index int, resultChan chan data) {
 		resultChan <- data{
 			Index: index,
 			Error: err,
 		}
 	})
+	verifYield("after-clean")
 }
 
 type Transport struct {
@@ -270,6 +275,7 @@ func (trans *Transport) getConn(ctx context.Context) (conn *conn, err error) {
 		return
 	}
 	trans.conns[key] = conn
+	verifNewConn(conn)
 	ctx, cancel := context.WithCancel(context.Background())
 	onExit := func() {
 		trans.lock.Lock()
